@@ -54,7 +54,8 @@ func c05Rewrite(K int) {
 		nspoof := vRange(vName("nspoof", i), 0, 2)
 		key := textproto.CanonicalMIMEHeaderKey(s.name)
 		for j := 0; j < nspoof; j++ {
-			in.Header[key] = append(in.Header[key], "spoof"+vString(vName("spoof", i, j), 1))
+			// any client value, including the empty string (a bare "Name:" line)
+			in.Header[key] = append(in.Header[key], vString(vName("spoof", i, j), vRange(vName("spooflen", i, j), 0, 1)))
 		}
 	}
 	in.Header["Accept"] = []string{"*/*"}
